@@ -13,7 +13,7 @@ import ast
 
 from ..core.inline import expand_helpers
 
-from ..core.astutil import assign_pairs, u, call_name, calls, iter_stmts, const, parent_map, ncmp, dot_args, index_elts, guard_chain
+from ..core.astutil import assign_pairs, u, call_name, calls, iter_stmts, const, parent_map, ncmp, dot_args, index_elts, guard_chain, resolve_atoms
 from ..core.index import AnalysisError
 
 J = "distance3d.gjk._gjk_jolt"
@@ -323,7 +323,7 @@ def r_solverdispatch(idx, rep, rule="R-SOLVERDISPATCH"):
     succ = [st for st in ast.walk(f.node) if isinstance(st, ast.Return) and isinstance(st.value, ast.Tuple) and const(st.value.elts[0]) is True]
     ok = bool(succ)
     for r_ in succ:
-        atoms = guard_chain(pm_f, r_, f.node)
+        atoms = resolve_atoms(f.node, guard_chain(pm_f, r_, f.node))
         ok = ok and any(pol is True and ncmp(t_) is not None and ncmp(t_)[0] == "<" and u(ncmp(t_)[2]) == f.params()[2] for t_, pol in atoms)
     rep.check(ok, rule, f.key + "|accept iff strictly closer", f.where, "the new point must be accepted only under `v_len_sq < prev_v_len_sqr` (NaN-safe order)")
     # rejected point in the distance loop: all old bits
